@@ -7,13 +7,15 @@ import c09gen as G
 COQ_PROPS = 'props/C09.v'
 PARTIAL = ('PROVED (Coq, all archive sizes, any number carrier): every JSON document built from a well-formed frozen archive with '
            'identifier tags validates against the schema term regenerated from gtc_v_1_5_0.json (C09_json_valid); the reader\'s '
-           'version sniff finds its pattern in the printed text for every indent / item separator / sort_keys / ensure_ascii when the '
-           'key separator is ": " (C09_sniff_key_sep), and is REFUTED for separators=(",", ":") (C09_sniff_refuted, known finding C09-1). '
+           'version regex (regenerated from persistence.loads_json) is found in the printed text for EVERY archive and every indent / '
+           'item separator / key separator (white space, colon, white space: all that print JSON) / sort_keys / ensure_ascii '
+           '(C09_sniff_all_options, C09_key_separators; fixed finding C09-1 is replayed as a regression). '
            'NOT PROVED, correspondence only: (a) validity of the sort_keys=True document for all archives (the jsort model is tied to real '
            'documents and validated on examples / by jsonschema on every generated document); (b) reading back (decoders are not modelled: '
-           'same content under every option is checked on the implementation for the full option grids); (c) XML: no Coq model of '
-           'xml_format.py / the .xsd was built -- documents of the full XML option grid are validated with lxml and reloaded on every run, '
-           'nothing more. Archives holding constants (uid None) and nan dof are outside wf: known findings C09-2, C09-5.')
+           'every document of the full option grids is reloaded and compared with the objects that were archived); (c) XML: no Coq model of '
+           'xml_format.py / the .xsd -- documents of the full XML option grid are validated with lxml, reloaded and compared, prefixes that are '
+           'not NCNames of Namespaces in XML 1.0 must be refused and names -- non-ASCII included -- accepted (fixed finding C09-3; the code-point ranges of the test are regenerated from xml_format.py and proved equal to the XML 1.0 production: C09_prefix_test_is_ncname, C09_prefix_accepted_no_colon), and the same Archive object is written as XML/JSON in sequence in both orders. '
+           'Archives holding constants (uid None) and nan dof are outside wf: known findings C09-2, C09-5; non-ASCII prefix under an ASCII encoding: C09-6.')
 ASSUMPTIONS = ['json.loads(json.dumps(t, **options)) == t up to member order; ElementTree parses what it prints (validated on every run)',
                'jsonschema (Draft 2020-12) and lxml are the reference validators the model validators are compared with']
 TRUSTED = ['tools/tr_schema.py (JSON schema + sniff regex -> Gallina); harness/c09gen.py renderings of documents and archives',
@@ -38,9 +40,12 @@ def dump_json_text(ar, o, via_file):
 
 def observe(ar2, tags):
     """content of a loaded archive, as comparable data (floats by bit pattern)"""
+    return observe_objs({t: ar2.extract(t) for t in tags})
+
+def observe_objs(objs):
+    """the same observation on uncertain numbers (used on the ORIGINAL objects as the reference)"""
     from GTC import core, lib
     out = {}
-    objs = {t: ar2.extract(t) for t in tags}
     reals = []
     for t, o in objs.items():
         if isinstance(o, lib.UncertainComplex):
@@ -48,10 +53,13 @@ def observe(ar2, tags):
             out[t] = ('c', repr(o.label))
         else:
             reals.append((t, o)); out[t] = ('r',)
+    kept = set(tuple(r._node.uid) for _, r in reals if r._node is not None and r.is_intermediate)
     for n, r in reals:
         comps = sorted((tuple(k.uid), cf(v)) for k, v in zip(r._u_components.keys(), r._u_components.values()))
         comps += sorted((tuple(k.uid), cf(v)) for k, v in zip(r._d_components.keys(), r._d_components.values()))
-        icomps = sorted((tuple(k.uid), cf(v)) for k, v in zip(r._i_components.keys(), r._i_components.values()))
+        # freezing drops the components with respect to intermediates that are not themselves archived
+        icomps = sorted((tuple(k.uid), cf(v)) for k, v in zip(r._i_components.keys(), r._i_components.values())
+                        if tuple(k.uid) in kept)
         out[n + '#'] = (cf(r.x), cf(r.u), cf(r.df), repr(r.label), bool(r.is_elementary), bool(r.is_intermediate),
                         tuple(r._node.uid) if r._node is not None else None, comps, icomps)
     for i, (n1, r1) in enumerate(reals):
@@ -147,7 +155,8 @@ def correspondence(rng, tier):
     for ai in range(n_arch):
         ctx = rng.choice([7, 11, 123456, rng.getrandbits(127) + 1])
         aseed = rng.getrandbits(48)
-        ar, desc = G.build_archive(random.Random(aseed), ctx)
+        ar, desc, items = G.build_archive(random.Random(aseed), ctx)
+        orig_obs = observe_objs(items)          # the reference content: the objects that were archived
         ar._freeze()
         tags = desc['tags']
         dist['archives'] += 1
@@ -169,7 +178,8 @@ def correspondence(rng, tier):
         add('case_encode A D', {'check': 'model encoder = document written'})
         add('case_valid D %s' % cbool(ok0), {'check': 'model validator = jsonschema (real document)'})
         valid_docs.append(base)
-        _, base_obs = load_json_observed(base_text, tags, 900 + ai)
+        base_obs = orig_obs
+        if len(base_text) > 1024: dist['json_long_documents'] = dist.get('json_long_documents', 0) + 1
         sorted_done = False
         for oi, o in enumerate(G.JSON_GRID):
             text = dump_json_text(ar, o, via_file=(oi + ai) % 2 == 0)
@@ -189,8 +199,6 @@ def correspondence(rng, tier):
             if not content_same and not is_known(dict(info, options=o)):
                 mism.append(dict(info, kind='reload', options=o, why='reload', detail='content differs / not readable',
                                  outcome=str(obs)[:200]))
-            if (oi * cells_per_archive) // ncell != ((oi - 1) * cells_per_archive) // ncell or oi == 0:
-                pass
             if (oi + ai * 5) % (ncell // cells_per_archive) == 0:
                 covered.add(oi); dist['print_cases'] += 1
                 defs.append('Definition TX%d : string := %s.' % (oi, G.cstring(text)))
@@ -312,56 +320,162 @@ def xml_check_cell(ar, tags, o, base_obs, k):
         return {'why': 'reload', 'outcome': str(obs)[:200]}
     return None
 
+def write_sequence(ar, tags, order, orig_obs, k, refs):
+    """the SAME Archive object written several times in the given order of formats (default options);
+    every document must validate, read back with the original content and be identical to the
+    document a fresh twin archive gives for that format (refs).  -> None or a dict saying what failed"""
+    from GTC import persistence as P
+    from lxml import etree
+    V = validators()
+    for step, fmt in enumerate(order):
+        where = {'step': step, 'order': order}
+        try:
+            out = P.dumps_json(ar) if fmt == 'json' else P.dumps_xml(ar)
+        except Exception as ex:
+            return dict(where, why='dump-raised', detail='%s: %s' % (type(ex).__name__, str(ex)[:150]))
+        if refs.get(fmt) is not None and out != refs[fmt]:
+            return dict(where, why='document-depends-on-history')
+        refs.setdefault(fmt, out)
+        if fmt == 'json':
+            try:
+                doc = json.loads(out, parse_constant=_not_json)
+            except ValueError as ex:
+                return dict(where, why='not-json', detail=str(ex))
+            if not V['json'].is_valid(doc):
+                return dict(where, why='schema', errors=[e.message[:200] for e in V['json'].iter_errors(doc)][:3])
+            _, obs = load_json_observed(out, tags, k)
+        else:
+            try:
+                doc = etree.fromstring(xml_bytes(out))
+            except Exception as ex:
+                return dict(where, why='not-well-formed', detail=str(ex)[:150])
+            if not V['xsd'].validate(doc):
+                return dict(where, why='schema', detail=str(V['xsd'].error_log)[:300])
+            obs = load_xml_observed(out, tags, k)
+        if isinstance(obs, str) or obs != orig_obs:
+            return dict(where, why='reload', outcome=str(obs)[:200])
+    return None
+
+SEQUENCES = [['xml', 'json', 'xml', 'json'], ['json', 'xml', 'json', 'xml']]
+
+def prefix_accepted(ar, prefix):
+    """does archive_to_xml accept this prefix (True) or refuse it with ValueError (False)"""
+    from GTC import xml_format
+    try:
+        xml_format.archive_to_xml(ar, prefix=prefix)
+        return True
+    except ValueError:
+        return False
+
+def prefix_check(ar, tags, orig_obs, prefix, expect, k):
+    """expect 'accept': must be accepted and, under an encoding that can represent it, give a valid document that
+    reads back with the original content; 'refuse': ValueError; 'either': refused, or valid and reloadable.
+    -> list of dicts saying what failed"""
+    from GTC import persistence as P
+    out = []
+    acc = prefix_accepted(ar, prefix)
+    if expect == 'accept' and not acc:
+        return [{'why': 'name-refused', 'detail': 'a prefix that is an NCName was refused'}]
+    if expect == 'refuse':
+        return [{'why': 'prefix-not-ncname', 'detail': 'a prefix that is not an NCName was accepted'}] if acc else []
+    if not acc:
+        return []
+    for enc in ('utf-8', 'unicode', None, 'us-ascii'):
+        o = dict(indent=None, prefix=prefix, encoding=enc, xml_declaration=None, short_empty_elements=True)
+        r = xml_check_cell(ar, tags, o, orig_obs, k)
+        if r is not None:
+            out.append(dict(r, options=o))
+    return out
+
 def xml_correspondence(rng, tier, dist, samples):
     from GTC import persistence as P
     n_arch = 16 if tier == 'quick' else 60
     per = 48 if tier == 'quick' else len(G.XML_GRID)
     mism = []; steps = 0; covered = set()
-    dist.update({'xml_archives': 0, 'xml_documents': 0, 'xml_options_covered': 0})
+    dist.update({'xml_archives': 0, 'xml_documents': 0, 'xml_options_covered': 0, 'sequences': 0,
+                 'xml_finite_dof_above_1e5': 0})
     ncell = len(G.XML_GRID)
     for ai in range(n_arch):
         ctx = rng.choice([7, 11, rng.getrandbits(127) + 1]); aseed = rng.getrandbits(48)
-        ar, desc = G.build_archive(random.Random(aseed), ctx, labels=G.XML_SAFE_LABELS)
+        ar, desc, items = G.build_archive(random.Random(aseed), ctx, labels=G.XML_SAFE_LABELS)
+        orig_obs = observe_objs(items)
         ar._freeze(); tags = desc['tags']
         info = {'archive': ai, 'ctx': ctx, 'archive_seed': aseed, 'format': 'xml', 'tags': tags}
         dist['xml_archives'] += 1
+        dist['xml_finite_dof_above_1e5'] += sum(1 for ln in ar._leaf_nodes.values() if 1e5 < ln.df < math.inf)
         f = io.BytesIO(); P.dump_xml(f, ar); base_out = f.getvalue()
         if base_out != P.dumps_xml(ar):
             mism.append(dict(info, kind='dump_xml-differs-from-dumps_xml'))
-        base_obs = load_xml_observed(base_out, tags, 700 + ai)
-        if isinstance(base_obs, str):
-            mism.append(dict(info, kind='reload', why='reload', options=G.XML_GRID[0], outcome=base_obs))
         if ai < 1: samples.append({'desc': desc, 'xml': base_out[:300].decode('utf-8', 'replace')})
         for j in range(per):
             oi = (ai * per + j) % ncell
             o = G.XML_GRID[oi]; covered.add(oi)
             dist['xml_documents'] += 1; steps += 1
-            r = xml_check_cell(ar, tags, o, base_obs, 700 + ai)
+            r = xml_check_cell(ar, tags, o, orig_obs, 700 + ai)
             if r is not None and not is_known(dict(info, options=o, **r)):
                 mism.append(dict(info, kind='xml-' + r['why'], options=o, **r))
+        # the same Archive object written in several formats in sequence, both orders (twins from the same seed)
+        refs = {}
+        for order in SEQUENCES:
+            tw, tdesc, titems = G.build_archive(random.Random(aseed), ctx, labels=G.XML_SAFE_LABELS)
+            dist['sequences'] += 1; steps += len(order)
+            r = write_sequence(tw, tags, order, orig_obs, 700 + ai, refs)
+            if r is not None and not is_known(dict(info, format='sequence', **r)):
+                mism.append(dict(info, kind='sequence-' + r['why'], format='sequence', options={'order': order},
+                                 **{k: v for k, v in r.items() if k != 'order'}))
+        if ai < 3:
+            for expect, plist in (('accept', G.GOOD_PREFIXES), ('refuse', G.BAD_PREFIXES), ('either', G.RESERVED_PREFIXES)):
+                for pfx in plist:
+                    dist['prefixes_' + expect] = dist.get('prefixes_' + expect, 0) + 1; steps += 1
+                    for r in prefix_check(ar, tags, orig_obs, pfx, expect, 700 + ai):
+                        f = dict(info, **r); f.setdefault('options', {'prefix': pfx})
+                        if not is_known(f):
+                            mism.append(dict(f, kind='xml-prefix'))
+        if ai == 0:
+            PREFIX_AR.append(ar)
     dist['xml_options_covered'] = len(covered)
     xg = xml_model_groups(rng, tier, dist)
-    return {'mismatches': mism, 'steps': steps, 'distinct': dist['xml_documents'], 'imports': xg['imports'],
+    return {'mismatches': mism, 'steps': steps, 'distinct': dist['xml_documents'] + dist['sequences'], 'imports': xg['imports'],
             'groups': xg['groups'], 'gmeta': xg['gmeta']}
 
+PREFIX_AR = []
+
+def cps(s):
+    return clist(['%d%%N' % ord(c) for c in s])
+
 def xml_model_groups(rng, tier, dist):
-    return {'imports': '', 'groups': [], 'gmeta': []}
+    """model of the prefix test (ranges regenerated from xml_format.py) = what archive_to_xml accepts"""
+    ar = PREFIX_AR.pop() if PREFIX_AR else _simple_archive()
+    del PREFIX_AR[:]
+    pool = G.GOOD_PREFIXES + G.BAD_PREFIXES + G.NAME_ONLY_5TH_ED + [G.rand_prefix(rng) for _ in range(250 if tier == 'quick' else 3000)]
+    terms = []; meta = []; n_acc = 0
+    for pfx in pool:
+        if pfx.lower().startswith('xml') or not pfx:       # refused / not a prefix by older rules of archive_to_xml
+            continue
+        acc = prefix_accepted(ar, pfx); n_acc += acc
+        terms.append('case_prefix %s %s' % (cps(pfx), cbool(acc)))
+        meta.append({'check': 'model prefix test = archive_to_xml accepts', 'prefix': pfx, 'code_points': [ord(c) for c in pfx], 'accepted': acc})
+    dist['prefix_cases'] = len(terms); dist['prefix_cases_accepted'] = n_acc
+    return {'imports': '', 'groups': [('', terms)], 'gmeta': [meta]}
 
 # ------------------------------------------------------------------ known findings
 def is_known(f):
     """failing inputs explained by the listed known findings"""
-    o = (f or {}).get('options') or {}
-    seps = o.get('separators')
-    if f.get('format', 'json') == 'json' and seps is not None and tuple(seps)[1] != ': ':
-        return True                      # C09-1: key separator other than ': ' defeats the version sniff
-    if f.get('format') == 'xml' and f.get('why') in ('prefix-not-ncname', 'label-not-xml-char'):
+    # C09-1 (key separator) and C09-3 (prefix) are FIXED findings: nothing is excused for them any more
+    if f.get('format') == 'xml' and f.get('why') == 'label-not-xml-char':
         return True
     if f.get('why') == 'constant':
         return True
-    # C09-5: an intermediate result with zero uncertainty has dof nan: 'nan' in XML, NaN in JSON
-    if f.get('format') == 'xml' and f.get('why') == 'schema' and "'nan' is not a valid value" in str(f.get('detail')):
+    # C09-6: a non-ASCII NCName prefix written under an ASCII encoding (the default): ElementTree puts character
+    # references into the element names
+    o = f.get('options') or {}
+    if f.get('format') == 'xml' and f.get('why') == 'not-well-formed' and o.get('encoding') in (None, 'us-ascii') \
+       and isinstance(o.get('prefix'), str) and any(ord(c) > 127 for c in o['prefix']):
         return True
-    if f.get('format', 'json') == 'json' and f.get('why') == 'not-json' and 'NaN' in str(f.get('detail')):
+    # C09-5: an intermediate result with zero uncertainty has dof nan: 'nan' in XML, NaN in JSON
+    if f.get('why') == 'schema' and "'nan' is not a valid value" in str(f.get('detail')):
+        return True
+    if f.get('why') == 'not-json' and 'NaN' in str(f.get('detail')):
         return True
     return False
 
@@ -428,6 +542,19 @@ def kf_xml_prefix():
         return True, 'not well-formed: %s' % str(ex)[:80]
     return False, 'well-formed'
 
+def kf_xml_prefix_encoding():
+    """dumps_xml(ar, prefix='\u00e9') with the default (us-ascii) encoding writes &#233;:gtcArchive : not well-formed"""
+    from GTC import persistence as P
+    from lxml import etree
+    ar = _simple_archive()
+    try:
+        etree.fromstring(P.dumps_xml(ar, prefix='\u00e9'))
+    except etree.XMLSyntaxError as ex:
+        return True, 'not well-formed: %s' % str(ex)[:80]
+    except ValueError:
+        return False, 'prefix refused'
+    return False, 'well-formed'
+
 def kf_xml_label_chars():
     """a label with a character outside the XML Char production (e.g. \\x0b) yields ill-formed XML"""
     from GTC import persistence as P
@@ -446,15 +573,14 @@ def _not_json(name):
 
 def check_archive(rng_state_seed, ctx, fmt, o):
     """independent restatement: build the archive, write it with options o, validate with the reference
-    validator, read back, compare with the content read back from the default-option document"""
+    validator, read back, compare with the content of the objects that were archived"""
     from GTC import persistence as P
     V = validators()
-    rng = random.Random(rng_state_seed)
-    ar, desc = G.build_archive(rng, ctx, labels=G.LABELS if fmt == 'json' else G.XML_SAFE_LABELS)
+    labels = G.LABELS if fmt == 'json' else G.XML_SAFE_LABELS
+    ar, desc, items = G.build_archive(random.Random(rng_state_seed), ctx, labels=labels)
+    orig_obs = observe_objs(items)
     tags = desc['tags']
     if fmt == 'json':
-        base_text = P.dumps_json(ar)
-        _, base_obs = load_json_observed(base_text, tags, 901)
         text = P.dumps_json(ar, **G.json_kwargs(o))
         try:
             doc = json.loads(text, parse_constant=_not_json)
@@ -463,25 +589,27 @@ def check_archive(rng_state_seed, ctx, fmt, o):
         if not V['json'].is_valid(doc):
             return {'why': 'schema', 'errors': [e.message[:200] for e in V['json'].iter_errors(doc)][:3]}
         _, obs = load_json_observed(text, tags, 901)
-        if isinstance(obs, str) or obs != base_obs:
+        if isinstance(obs, str) or obs != orig_obs:
             return {'why': 'reload', 'outcome': str(obs)[:200]}
         return None
-    return check_xml(ar, tags, o)
-
-def check_xml(ar, tags, o):
-    from GTC import persistence as P
-    base_obs = load_xml_observed(P.dumps_xml(ar), tags, 902)
-    if isinstance(base_obs, str):
-        return {'why': 'reload', 'outcome': base_obs}
-    return xml_check_cell(ar, tags, o, base_obs, 902)
+    if fmt == 'sequence':
+        return write_sequence(ar, tags, o['order'], orig_obs, 902, {})
+    if fmt == 'prefix':
+        for r in prefix_check(ar, tags, orig_obs, o['prefix'], o['expect'], 902):
+            f = dict(r, format='xml'); f.setdefault('options', {'prefix': o['prefix']})
+            if not is_known(f):
+                return dict({k: v for k, v in r.items() if k != 'options'}, format='prefix', cell=r.get('options'))
+        return None
+    return xml_check_cell(ar, tags, o, orig_obs, 902)
 
 def search(rng, tier, broken):
     n = 60 if tier == 'quick' else 400
     tried = 0
     for i in range(n):
         seed = rng.getrandbits(48); ctx = rng.choice([7, rng.getrandbits(100) + 1])
-        for fmt, grid in (('json', G.JSON_GRID), ('xml', G.XML_GRID)):
-            for o in rng.sample(grid, 6):
+        pgrid = [{'prefix': q, 'expect': e} for e, l in (('accept', G.GOOD_PREFIXES), ('refuse', G.BAD_PREFIXES), ('either', G.RESERVED_PREFIXES)) for q in l]
+        for fmt, grid in (('json', G.JSON_GRID), ('xml', G.XML_GRID), ('sequence', [{'order': q} for q in SEQUENCES]), ('prefix', pgrid)):
+            for o in rng.sample(grid, min(6, len(grid))):
                 f = {'format': fmt, 'archive_seed': seed, 'ctx': ctx, 'options': o}
                 if is_known(f): continue
                 tried += 1
